@@ -33,6 +33,77 @@ fn kind_class(c: &Comm) -> String {
     }
 }
 
+#[derive(Default)]
+struct Tally {
+    agree: u64,
+    disagree: u64,
+    known: u64,
+}
+
+/// decode `base` (state already written) and compare with the reference model
+fn judge_state(rep: &mut Report, t: u8, has_selector: bool, base: &[u8], state: u64, n: u64, c: &mut Tally) {
+    let base = base.to_vec();
+        rep.eval();
+        let bits = Bits::from_bytes(&base);
+        let want: Vec<Comm> = match t {
+            3 => itdma_ref(&bits, 149),
+            9 | 18 => {
+                if bits.uint(148, 1) == 1 {
+                    itdma_ref(&bits, 149)
+                } else {
+                    sotdma_ref(&bits, 149)
+                }
+            }
+            _ => sotdma_ref(&bits, 149),
+        };
+        if n % 512 == 1 {
+            rep.class(format!("t{}|sel={}|{}", t, if has_selector { bits.uint(148, 1) as i64 } else { -1 }, kind_class(&want[0])));
+        }
+        let got = match mon::call_radio(&base) {
+            Err(pi) => {
+                let buf = base.clone();
+                rep.violation(PID, format!("panic@{}", pi.loc), format!("type {} state {:#x}: panic '{}'", t, state, pi.msg), || mon::replay_message(&buf, "commstate"));
+                return;
+            }
+            Ok(Some(Some(c))) => c,
+            Ok(_) => {
+                let buf = base.clone();
+                rep.violation(PID, format!("t{}:rejected", t), format!("type {} with communication state {:#x} was rejected", t, state), || mon::replay_message(&buf, "commstate"));
+                return;
+            }
+        };
+        if n % 100_000 == 11 {
+            rep.sample(6, || {
+                let mut o = J::obj();
+                o.set("type", J::i(t as u64));
+                o.set("bits_148_167", J::s(&format!("{:#07x}", bits.uint(148, 20))));
+                o.set("reference", J::s(&format!("{:?}", want)));
+                o.set("observed", J::s(&format!("{:?}", got)));
+                o
+            });
+        }
+        if want.iter().any(|w| *w == got) {
+            c.agree += 1;
+            return;
+        }
+        c.disagree += 1;
+        // known-finding classifier: type 9 and the observed value is exactly the
+        // SOTDMA decode of bits 148..166 of this very payload (one bit early)
+        let sig = if t == 9 && sotdma_ref(&bits, 148).iter().any(|w| *w == got) {
+            c.known += 1;
+            KF_TYPE9.to_string()
+        } else {
+            format!("t{}:radio_status", t)
+        };
+        let buf = base.clone();
+        rep.violation(
+            PID,
+            sig,
+            format!("type {} bits 148..167 = {:#x}: expected {:?}, observed {:?}", t, bits.uint(148, 20), want, got),
+            || mon::replay_message(&buf, "commstate"),
+        );
+}
+
 pub fn run(ctx: &Ctx, rep: &mut Report) {
     let mut r = ctx.rng("c16");
     let contexts = if ctx.thorough() { 16 } else { 2 };
@@ -41,9 +112,7 @@ pub fn run(ctx: &Ctx, rep: &mut Report) {
         let (start, width) = if has_selector { (148usize, 20usize) } else { (149usize, 19usize) };
         let total = 1u64 << width;
         let mut base = vec![0u8; 21];
-        let mut agree = 0u64;
-        let mut disagree = 0u64;
-        let mut known = 0u64;
+        let mut tally = Tally::default();
         let mut n = 0u64;
         for state in 0..total {
             // contiguous blocks of 1024 states per shard
@@ -63,67 +132,57 @@ pub fn run(ctx: &Ctx, rep: &mut Report) {
                 }
                 n += 1;
                 put_bits(&mut base, start, width, state);
-                rep.eval();
-                let bits = Bits::from_bytes(&base);
-                let want: Vec<Comm> = match t {
-                    3 => itdma_ref(&bits, 149),
-                    9 | 18 => {
-                        if bits.uint(148, 1) == 1 {
-                            itdma_ref(&bits, 149)
-                        } else {
-                            sotdma_ref(&bits, 149)
-                        }
-                    }
-                    _ => sotdma_ref(&bits, 149),
-                };
-                if n % 512 == 1 {
-                    rep.class(format!("t{}|sel={}|{}", t, if has_selector { bits.uint(148, 1) as i64 } else { -1 }, kind_class(&want[0])));
-                }
-                let got = match mon::call_radio(&base) {
-                    Err(pi) => {
-                        let buf = base.clone();
-                        rep.violation(PID, format!("panic@{}", pi.loc), format!("type {} state {:#x}: panic '{}'", t, state, pi.msg), || mon::replay_message(&buf, "commstate"));
-                        continue;
-                    }
-                    Ok(Some(Some(c))) => c,
-                    Ok(_) => {
-                        let buf = base.clone();
-                        rep.violation(PID, format!("t{}:rejected", t), format!("type {} with communication state {:#x} was rejected", t, state), || mon::replay_message(&buf, "commstate"));
-                        continue;
-                    }
-                };
-                if n % 100_000 == 11 {
-                    rep.sample(6, || {
-                        let mut o = J::obj();
-                        o.set("type", J::i(t as u64));
-                        o.set("bits_148_167", J::s(&format!("{:#07x}", bits.uint(148, 20))));
-                        o.set("reference", J::s(&format!("{:?}", want)));
-                        o.set("observed", J::s(&format!("{:?}", got)));
-                        o
-                    });
-                }
-                if want.iter().any(|w| *w == got) {
-                    agree += 1;
-                    continue;
-                }
-                disagree += 1;
-                // known-finding classifier: type 9 and the observed value is exactly the
-                // SOTDMA decode of bits 148..166 of this very payload (one bit early)
-                let sig = if t == 9 && sotdma_ref(&bits, 148).iter().any(|w| *w == got) {
-                    known += 1;
-                    KF_TYPE9.to_string()
-                } else {
-                    format!("t{}:radio_status", t)
-                };
-                let buf = base.clone();
-                rep.violation(
-                    PID,
-                    sig,
-                    format!("type {} bits 148..167 = {:#x}: expected {:?}, observed {:?}", t, bits.uint(148, 20), want, got),
-                    || mon::replay_message(&buf, "commstate"),
-                );
+                judge_state(rep, t, has_selector, &base, state, n, &mut tally);
             }
         }
+        // notable states (all zero / all one, one or two bits set or cleared, every sync state x
+        // time-out x sub-message corner, every ITDMA corner, and the fixed value ITU-R M.1371
+        // prescribes for Class B "CS" units, 0x60006) in many random contexts each: whatever
+        // else the message says, the state decodes by the same rule
+        let mut notable: Vec<u64> = vec![0, (1 << 19) - 1, 0x60006, 0x20006, 0x40006];
+        for i in 0..19u64 {
+            notable.push(1 << i);
+            notable.push(((1 << 19) - 1) ^ (1 << i));
+            for j in (i + 1)..19 {
+                notable.push((1 << i) | (1 << j));
+            }
+        }
+        for sync in 0..4u64 {
+            for to in 0..8u64 {
+                for sub in [0u64, 1, 0x3fff] {
+                    notable.push(sync << 17 | to << 14 | sub);
+                }
+            }
+            for inc in [0u64, 1, 0x1fff] {
+                for slots in 0..8u64 {
+                    for keep in 0..2u64 {
+                        notable.push(sync << 17 | inc << 4 | slots << 1 | keep);
+                    }
+                }
+            }
+        }
+        notable.sort();
+        notable.dedup();
+        let nctx = if ctx.thorough() { 1024 } else { 96 };
+        for (ni, &st19) in notable.iter().enumerate() {
+            if (ni as u64) % ctx.nshards != ctx.shard {
+                continue;
+            }
+            for sel in 0..(if has_selector { 2u64 } else { 1 }) {
+                let state = if has_selector { sel << 19 | st19 } else { st19 };
+                for _ in 0..nctx {
+                    let mut base = r.bytes(21);
+                    base[0] = (t << 2) | (base[0] & 3);
+                    put_bits(&mut base, start, width, state);
+                    n += 1;
+                    if n % 512 == 1 {
+                        rep.class(format!("t{}|notable-state|sel={}", t, if has_selector { sel as i64 } else { -1 }));
+                    }
+                    judge_state(rep, t, has_selector, &base, state, n, &mut tally);
+                }
+            }
+        }
+        let (agree, disagree, known) = (tally.agree, tally.disagree, tally.known);
         rep.count_n(&format!("t{}:agree", t), agree);
         rep.count_n(&format!("t{}:disagree", t), disagree);
         rep.count_n(&format!("t{}:disagree_matching_known_signature", t), known);
